@@ -116,8 +116,14 @@ func (i *Int) runOperationInt(opType op.BinaryOpType, right int64) Object {
 	case op.Multiply:
 		return NewInt(i.value * right)
 	case op.Divide:
+		if right == 0 {
+			return Errorf("value error: division by zero")
+		}
 		return NewInt(i.value / right)
 	case op.Modulo:
+		if right == 0 {
+			return Errorf("value error: division by zero")
+		}
 		return NewInt(i.value % right)
 	case op.Xor:
 		return NewInt(i.value ^ right)
